@@ -65,6 +65,7 @@ def randoms(tier, rng):
     for (n, nk) in caps:
         steps = 1200 if tier == "quick" else 500 if tier == "cross" else 4000
         p = rng.randint(0, 5)
+        if n == caps[-1][0]: p = 8 + 2 * rng.randint(0, 2)       # one run with huge keys (17 .. 65535 bytes)
         out.append(dict(tag="n%d" % n, segs=[_rand(rng, steps, n, nk) for _ in range(2)],
                         trace_consts=dict(N=n, NKeys=nk, Lens={1}, D1=32, D2=66),
                         trace_subst=dict(Home="HomeT", Keys="KeysN"),
